@@ -17,7 +17,7 @@ KANI_DIR = os.path.join(HERE, '..', 'kani')
 GROUPS = {
     'metrics': dict(attach='src/metrics.rs', file='metrics_harness.rs', module='metrics::verif_kani_metrics', bounded=False,
                     harnesses=['metrics_action_received', 'metrics_action_dropped', 'metrics_action_executed', 'metrics_action_reduced',
-                               'metrics_effect_issued', 'metrics_effect_executed', 'metrics_middleware_executed', 'metrics_state_notified',
+                               'metrics_effect_issued', 'metrics_effect_executed', 'metrics_middleware_executed', 'metrics_middleware_executed_zero', 'metrics_state_notified',
                                'metrics_subscriber_notified', 'metrics_queue_size', 'metrics_error_occurred', 'metrics_snapshot_copies'],
                     timeout=(300, 900)),
     'lock': dict(attach='src/store_impl.rs', file='lock_harness.rs', module='store_impl::verif_kani_lock', bounded=False,
